@@ -546,7 +546,7 @@ func NewLockedBooksMonitor(e *Env) *Monitor {
 				aim = "aimed-at-escrow"
 			}
 			if hasTopLevelWrkBeacon(tx.Spec.Msgs) {
-				payer := tx.Spec.Signers[0].Addr.String()
+				payer := feePayerOf(tx)
 				fee := tx.Spec.Fee.AmountOf(pre.EntParams.Denom)
 				lk := pre.Accts[payer].Locked
 				switch {
@@ -585,7 +585,7 @@ func NewLockedBooksMonitor(e *Env) *Monitor {
 			return
 		}
 		// a fee unlock: escrow decreases by exactly what the payer's locked decreased
-		payer := tx.Spec.Signers[0].Addr.String()
+		payer := feePayerOf(tx)
 		dl := pre.Accts[payer].Locked.Sub(post.Accts[payer].Locked)
 		de, neg := preB.SafeSub(postB...)
 		if neg || !de.IsEqual(sdk.NewCoins(sdk.NewCoin(pre.EntParams.Denom, dl))) {
@@ -666,10 +666,7 @@ func NewLockedSpendMonitor(e *Env) *Monitor {
 		}
 	}
 	mon.AfterTx = func(e *Env, tx *TxPlan, pre, post *lab.Obs, resp abci.ResponseDeliverTx) {
-		payer := tx.Spec.Signers[0].Addr.String()
-		if tx.Spec.Payer != nil {
-			payer = tx.Spec.Payer.String()
-		}
+		payer := feePayerOf(tx)
 		anteFailed := false
 		s0 := tx.Spec.Signers[0].Addr.String()
 		if post.Accts[s0].Seq == pre.Accts[s0].Seq {
